@@ -232,7 +232,13 @@ func (m *mapParallelCollection) run() {
 			for pair := range in {
 				frames[0].Value = reflect.ValueOf(pair.Value)
 				frames[0].Expression = pair.ValueExpression
-				v, err := context.VM.CallWithArgsAndExpressions(context, m.f, frames[0:1])
+				// The function may return a lazily evaluated value (for
+				// example, the result of map) that keeps the context it was
+				// called with, and that the consumer evaluates while this
+				// goroutine is already calling the function for its next
+				// item: each call gets a VM of its own.
+				call := context.Fork(1)[0]
+				v, err := call.VM.CallWithArgsAndExpressions(call, m.f, frames[0:1])
 				if err == nil {
 					select {
 					case out <- expressionPair{
